@@ -140,6 +140,7 @@ func VH_C19_MapOrderIDs() {
 
 // C19 H1 for TTML: the value handed to the XML encoder is the same for every map order.
 func VH_C19_MapOrderTTML() {
+	vengineOnly()
 	ns := 1 + choose(vbound("styles", 2, 3))
 	nr := choose(vbound("regions+1", 2, 3))
 	s := vc19List(ns, nr)
